@@ -102,6 +102,7 @@ type World struct {
 	handles          []*sod.DB
 	absOps           []string
 	lastPut          []putRecord
+	fixedQueries     []Query
 	maxLive          int
 }
 
